@@ -119,6 +119,30 @@ pub fn gen_c02(rng: &mut Rng, n: usize, out: &mut Vec<String>) {
             // the diagnostics as the broker publishes them (ranges converted, messages formatted)
             out.push(format!("PUB {}", hex_str(&text)));
         }
+        if i % 3 == 1 {
+            // every request handler on THIS text (soup, broken programs, token lists, deep nesting, lexeme lists):
+            // the position-free ones, and the others at positions on character boundaries and outside the text
+            let h = hex_str(&text);
+            out.push(format!("SEM {}", h));
+            out.push(format!("FOLD {}", h));
+            out.push(format!("FMT {} {} {}", h, rng.below(2), rng.below(9)));
+            for _ in 0..2 {
+                let (l, c) = if rng.chance(1, 6) || text.is_empty() {
+                    (rng.below(8) as u32, rng.below(40) as u32)
+                } else {
+                    let mut off = rng.below(text.len() + 1);
+                    while !text.is_char_boundary(off) {
+                        off -= 1;
+                    }
+                    crate::ops_feat::lsp_pos(&text, off)
+                };
+                for op in ["HOV", "SIG", "COMP", "REFS", "PREP"] {
+                    out.push(format!("{} {} {} {}", op, h, l, c));
+                }
+                out.push(format!("GOTO {} {} {} {}", rng.pick(&["decl", "typedef", "impl"]), h, l, c));
+                out.push(format!("REN {} {} {} {}", h, l, c, hex_str("renamed_1")));
+            }
+        }
         if i % 10 == 9 {
             // prose in front of a program (a comment that lost its `//`): long runs of skipped text with multi-byte
             // characters at every offset
